@@ -172,6 +172,14 @@ class ByteDomain(exchange.ExchangeDomain):
             return [("ok", args[0], state)]
         return [("ok", TOP, state)]
 
+    def apply_lambda(self, node, lam, args, kwargs, state):
+        # chunks handed to a local function value (a lambda / nested def wrapping a reader) flow into it, as into a helper
+        st = state
+        for a in list(node.args) + [k.value for k in node.keywords]:
+            st = self._save(st, a)
+        res = super().apply_lambda(node, lam, args, kwargs, st)
+        return res
+
     def on_stmt(self, node, state):
         if state.has("#moved"):
             state = state.drop("#moved")
